@@ -26,7 +26,7 @@ import (
 // aliasHazExempt: helpers whose callers exclude the aliasing.
 var aliasHazExempt = map[string]string{
 	"schemes/ckks.(Evaluator).mulRelinThenAdd": "its two callers MulThenAdd / MulRelinThenAdd return the error 'opOut must be different from op0 and op1' before calling it",
-	"schemes/bgv.(Evaluator).mulRelinThenAdd": "MulThenAdd / MulRelinThenAdd return an error when op0 == opOut or op1 == opOut before calling it (documented: 'will return an error if either op0 == opOut or op1 == opOut')",
+	"schemes/bgv.(Evaluator).mulRelinThenAdd":  "MulThenAdd / MulRelinThenAdd return an error when op0 == opOut or op1 == opOut before calling it (documented: 'will return an error if either op0 == opOut or op1 == opOut')",
 }
 
 func scanAliasHaz(c *core.Ctx) []ob {
